@@ -115,6 +115,14 @@ func (b *Buffer) GetBlob() (ociregistry.Descriptor, []byte, error) {
 	return b.desc, b.buf, nil
 }
 
+// setStartOffset sets the offset that the next call to Write
+// is expected to be writing at (-1 means don't check).
+func (b *Buffer) setStartOffset(offset int64) {
+	b.mu.Lock()
+	defer b.mu.Unlock()
+	b.checkStartOffset = offset
+}
+
 // Write implements io.Writer by writing some data to the blob.
 func (b *Buffer) Write(data []byte) (int, error) {
 	b.mu.Lock()
@@ -160,11 +168,9 @@ func (b *Buffer) Commit(dig ociregistry.Digest) (_ ociregistry.Descriptor, err e
 		b.commitErr = err
 		return ociregistry.Descriptor{}, err
 	}
-	return ociregistry.Descriptor{
-		MediaType: "application/octet-stream",
-		Size:      int64(len(b.buf)),
-		Digest:    dig,
-	}, nil
+	b.mu.Lock()
+	defer b.mu.Unlock()
+	return b.desc, nil
 }
 
 func (b *Buffer) checkCommit(dig ociregistry.Digest) (err error) {
